@@ -37,18 +37,7 @@ import kernel_args as K
 LEVEL = 'translation_validation'
 
 # findings of the design/build phase that are not (yet) in KNOWN_FINDINGS.json; see finish_local()
-LOCAL_KNOWN = {
-    'C19:numba_initialiser_funcs-missing-functions':
-        'pygyro/initialisation/numba_initialiser_funcs.py does not define init_f, init_f_flux, init_f_pol, init_f_vpar, '
-        'feq_vector (F11): with ACC=numba the initialisation falls back on nothing / ImportError '
-        '(patch: notes/patch_C19_numba_initialiser.diff)',
-    'C19:pythran_spline_eval_funcs.nu_eval_spline_2d_cross[der=11]-output-all-zero':
-        'pygyro/splines/pythran_spline_eval_funcs.py: nu_eval_spline_2d_cross_11 lacks the accumulation line '
-        '`z[i, j] += theCoeffs[k, 0]*basis1[k]`, so the mixed derivative (der1=der2=1) is 0.0 everywhere '
-        '(patch: notes/patch_C19_pythran_cross11.diff)',
-    'C19:pythran_spline_eval_funcs.nu_eval_spline_2d_cross_11[der=11]-output-all-zero':
-        'same defect seen through the specialised variant nu_eval_spline_2d_cross_11 itself',
-}
+LOCAL_KNOWN = {}   # every finding of the build phase has been decided in KNOWN_FINDINGS.json (fixed or known)
 
 
 def finish_local(chk, local_known, search=None):
@@ -221,17 +210,57 @@ def judge(chk, vname, case, name, ref, oth, stats):
     return cmp
 
 
-def run_interpreted(chk, cases, ref_results, variants, stats):
+def budget(case):
+    """watchdog per call: the kernels take milliseconds; only the implicit step iterates until convergence"""
+    return 10.0 if case.get('iterates') else 3.0
+
+
+class Hangs:
+    """after two time-outs of the same kernel in the same variant its remaining cases are skipped (each costs the budget)"""
+
+    def __init__(self):
+        self.n = {}
+
+    def skip(self, vname, name):
+        return self.n.get((vname, name), 0) >= 2
+
+    def note(self, vname, name, res):
+        if res[0] == 'hang':
+            self.n[(vname, name)] = self.n.get((vname, name), 0) + 1
+            self.n[vname] = self.n.get(vname, 0) + 1
+
+    def budget(self, vname, case):
+        return min(budget(case), 1.0) if self.n.get(vname, 0) >= 4 else budget(case)
+
+
+def run_reference(chk, ref, cases, hangs):
+    out = []
+    for c in cases:
+        if hangs.skip('reference', c['kernel']):
+            out.append(('hang', 0.0))
+            continue
+        r = K.run_case(ref, c, budget=hangs.budget('reference', c))
+        hangs.note('reference', c['kernel'], r)
+        out.append(r)
+    return out
+
+
+def run_interpreted(chk, cases, ref_results, variants, stats, hangs):
     for c, r in zip(cases, ref_results):
         for vname, var in variants:
             mod = var.get(c['module'])
             if mod is None or not hasattr(mod, c['kernel']):
                 chk.count('not defined in %s copy: %s.%s' % (vname, c['module'], c['kernel']))     # reported by names_check
                 continue
-            o = K.run_case(var, c)
+            if hangs.skip(vname, c['kernel']):
+                chk.count('skipped after two time-outs: %s %s' % (vname, c['kernel']))
+                continue
+            o = K.run_case(var, c, budget=hangs.budget(vname, c))
+            hangs.note(vname, c['kernel'], o)
             judge(chk, vname, c, c['kernel'], r, o, stats)
-            if 'alias' in c and vname == 'pythran' and hasattr(mod, c['alias'][0]):
-                o = K.run_case(var, c, name=c['alias'][0], nargs=c['alias'][1])
+            if 'alias' in c and vname == 'pythran' and hasattr(mod, c['alias'][0]) and not hangs.skip(vname, c['alias'][0]):
+                o = K.run_case(var, c, name=c['alias'][0], nargs=c['alias'][1], budget=hangs.budget(vname, c))
+                hangs.note(vname, c['alias'][0], o)
                 judge(chk, vname, c, c['alias'][0], r, o, stats)
 
 
@@ -303,8 +332,9 @@ def run(chk):
     cases = K.all_cases(chk.rng, chk.n(6, 20))
     cov = Coverage(ref)
     cov.start()
+    hangs = Hangs()
     try:
-        ref_results = [K.run_case(ref, c) for c in cases]
+        ref_results = run_reference(chk, ref, cases, hangs)
     finally:
         cov.stop()
     stats = {}
@@ -318,7 +348,7 @@ def run(chk):
         if r[0] != 'ok':
             # the generators are meant to produce arguments the reference accepts
             chk.count('reference %s: %s.%s' % (r[0], c['module'], c['kernel']))
-    run_interpreted(chk, cases, ref_results, variants, stats)
+    run_interpreted(chk, cases, ref_results, variants, stats, hangs)
     if not chk.quick():
         build_and_run(chk, cases, ref_results, ref_names, stats)
     else:
